@@ -47,6 +47,9 @@ InitCase ==
   \/ \E w \in 1..Len(Witness), e1 \in {"#N/A", "#DIV/0!"}, e2 \in {"#VALUE!", "#N/A"} : \E p \in Points(Witness[w]), q \in Points(Witness[w]) :
         /\ p # q
         /\ case = C(Witness[w].f, Inject(Inject(Witness[w].args, p, Err(e1)), q, Err(e2)))
+  \* AND / OR over ONE range holding an error value (before / after the element that decides the truth value)
+  \/ \E f \in {"AND", "OR"}, e \in Codes, pos \in 1..3, tv \in BOOLEAN :
+        case = C(f, <<Arr(<<[i \in 1..3 |-> IF i = pos THEN Err(e) ELSE Bool(tv)]>>)>>)
   \/ \E f \in {"ISERROR", "ISERR", "ISNA"}, e \in Codes : case = C(f, <<Err(e)>>)
   \/ \E f \in {"ISERROR", "ISERR", "ISNA", "ISNUMBER", "ISTEXT", "ISBLANK"}, i \in 1..NP : case = C(f, <<Partners[i]>>)
   \/ case = C("NA", <<>>)
